@@ -788,6 +788,14 @@ def check_convert(case):
 
 def verify_convert(case, da, parent, pix_dims, tag=""):
     """One conversion of ``da`` as it is now, compared with the dense kernels for its current coordinates."""
+    return start_convert(case, da, parent, pix_dims, tag)()
+
+
+def start_convert(case, da, parent, pix_dims, tag="", detach=False):
+    """Snapshot ``da``, convert it, check that the input is untouched; returns a function that does all
+    comparisons with the dense kernels. Between the two, no conversion kernel is called by the harness, so
+    that a sequence of conversions of one object is not interleaved with reference calls. With ``detach``
+    the dense coordinates of the result are copied (the caller is going to change the input in place)."""
     import scipp as sc
     import scippneutron as scn
 
@@ -811,13 +819,19 @@ def verify_convert(case, da, parent, pix_dims, tag=""):
         arg = da
     try:
         out = scn.convert(arg, origin=origin, target=target, scatter=scatter)
-    except sc.DTypeError:
-        # allowed only where the dense kernels refuse the same dtype: int32 operands of scipp's pow
-        if case["evdtype"] != "int32" or not dense_refuses_int32(
-                origin, target, scatter, case["unit"], in_coords, pix_dims, dict(da.sizes)):
+    except sc.DTypeError as exc:
+        if case["evdtype"] != "int32":
             raise
         input_unchanged(snap, da, name)
-        return [f"target:{origin}->{target}", "ev:int32", "int32:refused-like-dense(DTypeError)"], False
+        refusal, sizes_now = exc, dict(da.sizes)
+
+        def refused():
+            # allowed only where the dense kernels refuse the same dtype: int32 operands of scipp's pow
+            if not dense_refuses_int32(origin, target, scatter, case["unit"], in_coords, pix_dims, sizes_now):
+                raise refusal
+            return [f"target:{origin}->{target}", "ev:int32", "int32:refused-like-dense(DTypeError)"], False
+
+        return refused
     if case["dataset"]:
         if sorted(out.keys()) != (["events", "monitor"] if with_dense_item else ["events"]):
             raise Violation("dataset", f"{name}: items of the dataset are {list(out.keys())}")
@@ -831,17 +845,36 @@ def verify_convert(case, da, parent, pix_dims, tag=""):
     if parent_snap is not None:
         input_unchanged(parent_snap, parent, name + " (parent of the slice)")
 
+    if detach and out.bins is not None:
+        out = out.copy(deep=False)
+        for k in list(out.coords):
+            aligned = bool(out.coords[k].aligned)
+            out.coords[k] = out.coords[k].copy()
+            out.coords.set_aligned(k, aligned)
+    in_dims, in_shape, in_sizes = tuple(da.dims), tuple(da.shape), dict(da.sizes)
+
+    def finish():
+        return _finish_convert(case, name, out, snap, in_coords, x_dense_in, pix_dims, in_dims, in_shape, in_sizes,
+                               with_dense_item, dense_snap if with_dense_item else None,
+                               out_dense if with_dense_item else None)
+
+    return finish
+
+
+def _finish_convert(case, name, out, snap, in_coords, x_dense_in, pix_dims, in_dims, in_shape, in_sizes,
+                    with_dense_item, dense_snap, out_dense):
+    origin, target, scatter = case["origin"], case["target"], case["scatter"]
     if out.bins is None:
         raise Violation("bin-grid", f"{name}: result is not binned")
     # one consistent rename of the origin dim
     rename = {}
-    if origin in da.dims:
-        k = list(da.dims).index(origin)
-        if len(out.dims) != len(da.dims):
-            raise Violation("bin-grid", f"{name}: result dims {out.dims}, input {da.dims}")
+    if origin in in_dims:
+        k = list(in_dims).index(origin)
+        if len(out.dims) != len(in_dims):
+            raise Violation("bin-grid", f"{name}: result dims {out.dims}, input {in_dims}")
         rename = {origin: out.dims[k]}
-    if tuple(rename.get(d, d) for d in da.dims) != tuple(out.dims) or tuple(out.shape) != tuple(da.shape):
-        raise Violation("bin-grid", f"{name}: result dims {out.dims} {out.shape}, input {da.dims} {da.shape}")
+    if tuple(rename.get(d, d) for d in in_dims) != tuple(out.dims) or tuple(out.shape) != in_shape:
+        raise Violation("bin-grid", f"{name}: result dims {out.dims} {out.shape}, input {in_dims} {in_shape}")
 
     if with_dense_item and not snap_equal(dense_snap, snap_var(out_dense), rename):
         raise Violation("dataset", f"{name}: dense item of the dataset changed: {out_dense.dims} "
@@ -882,7 +915,7 @@ def verify_convert(case, da, parent, pix_dims, tag=""):
             raise Violation("edge-coord", f"{name}: dense coordinate {origin!r} was not converted to {target!r}")
         got = out.coords[target]
         newdim = rename[origin]
-        for pix in bin_indices(pix_dims, [da.sizes[d] for d in pix_dims]):
+        for pix in bin_indices(pix_dims, [in_sizes[d] for d in pix_dims]):
             g = geometry_of({k: at(v, pix).copy() for k, v in in_coords.items()}, scatter)
             ref = dense_chain(origin, target, x_dense_in.copy(), g)
             gp = at(got, pix)
@@ -935,7 +968,7 @@ def verify_convert(case, da, parent, pix_dims, tag=""):
             labs.append("nan-events")
     s = np.asarray(sizes).reshape(-1)
     mixed = bool((s == 0).any() and (s > 0).any())
-    nontrivial = n > 0 and (mixed or case["evdtype"] != "float64" or len(da.dims) == 2)
+    nontrivial = n > 0 and (mixed or case["evdtype"] != "float64" or len(in_dims) == 2)
     return labs, nontrivial
 
 
@@ -971,16 +1004,20 @@ def history_cases(draw):
 
 def check_history(case):
     da, parent, pix_dims = build_input(case)
-    labs, _ = verify_convert(case, da, parent, pix_dims, tag="conversion 1: ")
-    compared = False
+    # all conversions first, back to back as a user would run them; the comparisons with the dense kernels
+    # (which call the kernels themselves) come afterwards, each against the snapshot taken before its conversion
+    pending = [start_convert(case, da, parent, pix_dims, tag="conversion 1: ", detach=True)]
     for k, step in enumerate(case["history"]):
         # the coordinate of the very object that was converted before is changed in its own buffer
         # (a slice sees the change through its parent)
         mutate_in_place(parent.coords[step["name"]], step)
-        labs, _ = verify_convert(case, da, parent, pix_dims,
-                                 tag=f"conversion {k + 2} after in-place change of {step['name']}: ")
+        pending.append(start_convert(case, da, parent, pix_dims, detach=True,
+                                     tag=f"conversion {k + 2} after in-place change of {step['name']}: "))
+    compared = False
+    for finish in pending:
+        labs, _ = finish()
         compared = "events-compared" in labs
-        labs.append("history:in-place:" + step["name"])
+    labs += ["history:in-place:" + step["name"] for step in case["history"]]
     labs.append(f"history:{len(case['history']) + 1}-conversions")
     return labs, compared
 
@@ -1388,25 +1425,30 @@ def check_kernel(case):
         args[name] = sc.bins(begin=b.copy(), end=e.copy(), dim=EVDIM, data=buffers[name])
     for name, op in case["dense"].items():
         args[name] = _build_dense_operand(op, pix_dims, pix_shape)
-    labs, nontrivial = _verify_kernel(case, fn, args, buffers, pix_dims, pix_shape)
+    pending = [_start_kernel(case, fn, args, buffers, pix_dims, pix_shape)]
     step = case.get("mutate")
     if step is not None:
-        # same argument objects, one of them changed in place, called again
+        # same argument objects, one of them changed in place, called again; the dense reference calls for
+        # both come afterwards so that the two calls under test follow each other directly
         mutate_in_place(args[step["name"]], step)
-        labs, nontrivial = _verify_kernel(case, fn, args, buffers, pix_dims, pix_shape,
-                                          tag=f"second call after in-place change of {step['name']}: ")
+        pending.append(_start_kernel(case, fn, args, buffers, pix_dims, pix_shape,
+                                     tag=f"second call after in-place change of {step['name']}: "))
+    for finish in pending:
+        labs, nontrivial = finish()
+    if step is not None:
         labs.append("history:in-place:" + step["name"])
     return labs, nontrivial
 
 
-def _verify_kernel(case, fn, args, buffers, pix_dims, pix_shape, tag=""):
+def _start_kernel(case, fn, args, buffers, pix_dims, pix_shape, tag=""):
+    """Call the kernel with the binned arguments and check that they are untouched; returns the function
+    that compares the result with the dense calls (made with copies of the dense arguments as they are now)."""
     import scipp as sc
 
-    kname = tag + case["kernel"]
-    lay = case["layout"]
     dtype = next(iter(case["binned"].values()))["dtype"]
     before_b = {name: snap_binned(args[name]) for name in case["binned"]}
     before_d = {name: snap_var(args[name]) for name in case["dense"]}
+    dense_now = {name: args[name].copy() for name in case["dense"]}
 
     def dense_call(idx, bi, ei):
         dargs = {}
@@ -1414,21 +1456,31 @@ def _verify_kernel(case, fn, args, buffers, pix_dims, pix_shape, tag=""):
             dargs[name] = sc.array(dims=[EVDIM], values=np.asarray(op["values"][bi:ei], dtype=op["dtype"]),
                                    unit=op["unit"], dtype=op["dtype"])
         for name in case["dense"]:
-            dargs[name] = at(args[name], idx).copy()
+            dargs[name] = at(dense_now[name], idx).copy()
         return fn(**dargs)
 
     try:
         out = fn(**args)
-    except sc.DTypeError:
-        # allowed only where the dense call refuses the same dtype: int32 operands of scipp's pow
+    except sc.DTypeError as exc:
         if dtype != "int32":
             raise
-        try:
-            dense_call({d: 0 for d in pix_dims}, 0, 0)
-        except sc.DTypeError:
-            return ["kernel:" + case["kernel"], "ev:int32", "int32:refused-like-dense(DTypeError)"], False
-        raise
+        refusal = exc
 
+        def refused():
+            # allowed only where the dense call refuses the same dtype: int32 operands of scipp's pow
+            try:
+                dense_call({d: 0 for d in pix_dims}, 0, 0)
+            except sc.DTypeError:
+                return ["kernel:" + case["kernel"], "ev:int32", "int32:refused-like-dense(DTypeError)"], False
+            raise refusal
+
+        return refused
+    _kernel_inputs_unchanged(tag + case["kernel"], case, args, buffers, before_b, before_d)
+    outs = {k: v.copy() for k, v in (out if isinstance(out, dict) else {"result": out}).items()}
+    return lambda: _finish_kernel(case, tag + case["kernel"], outs, before_b, dense_call, pix_dims, pix_shape)
+
+
+def _kernel_inputs_unchanged(kname, case, args, buffers, before_b, before_d):
     for name in case["binned"]:
         after = snap_binned(args[name])
         bb = before_b[name]
@@ -1441,7 +1493,12 @@ def _verify_kernel(case, fn, args, buffers, pix_dims, pix_shape, tag=""):
         if not snap_equal(before_d[name], snap_var(args[name])):
             raise Violation("input-modified", f"{kname}: argument {name!r} was modified")
 
-    outs = out if isinstance(out, dict) else {"result": out}
+
+def _finish_kernel(case, kname, outs, before_b, dense_call, pix_dims, pix_shape):
+    import scipp as sc
+
+    lay = case["layout"]
+    dtype = next(iter(case["binned"].values()))["dtype"]
     ncompared = 0
     first = before_b[next(iter(case["binned"]))]
     sizes = first["end"] - first["begin"]
